@@ -223,3 +223,53 @@ def rule_batchbranch(repo, rid, modules):
     if len(batch_branches(fx)) != 2:
         raise AnalysisError('%s: fixtures no longer classified (%d)' % (rid, len(batch_branches(fx))))
     return res
+
+
+# ------------------------------------------------------------------------------------------------ .view() of a caller-supplied tensor
+
+def view_of_param(fnode):
+    """[(node, param)]: `p.view(...)` where p is a parameter of the function that has not been re-bound before (so its memory layout is the caller's)"""
+    a = fnode.args
+    params = {x.arg for x in a.posonlyargs + a.args + a.kwonlyargs} - {'self', 'cls'}
+    out = []
+    rebound = {}
+    for n in fnode.body:                                     # unconditional statements only: a re-binding under an `if` leaves the other path with the caller's layout
+        if isinstance(n, ast.Assign) and isinstance(n.value, ast.Call):
+            nm = (dotted(n.value.func) or (n.value.func.attr if isinstance(n.value.func, ast.Attribute) else '')).split('.')[-1]
+            if nm not in ('contiguous', 'clone', 'reshape', 'flatten', 'tensor', 'stack', 'cat', 'zeros', 'empty', 'zeros_like', 'empty_like'):
+                continue
+            for t in n.targets:
+                for el in (t.elts if isinstance(t, ast.Tuple) else [t]):
+                    if isinstance(el, ast.Name) and el.id in params:
+                        rebound.setdefault(el.id, []).append(n.lineno)
+    for n in ast.walk(fnode):
+        if isinstance(n, ast.Call) and isinstance(n.func, ast.Attribute) and n.func.attr == 'view' and isinstance(n.func.value, ast.Name) and n.func.value.id in params:
+            p = n.func.value.id
+            # a rebinding on an EARLIER line (p = p.contiguous() / torch.as_tensor(p) ...) makes the layout the function's own; the statement
+            # `shape, p = p.shape, p.view(...)` itself does not
+            if any(l < n.lineno for l in rebound.get(p, [])):
+                continue
+            if n.args and all(isinstance(x, ast.Attribute) and x.attr == 'dtype' for x in n.args):
+                continue                                     # view(dtype): a reinterpretation, not a reshape
+            out.append((n, p))
+    return out
+
+
+@guarded
+def rule_viewarg(repo, rid, modules, exempt=('lview', 'view', 'view_as')):
+    res = RuleResult(rid, 'batch transparency over memory layouts: no converter / kernel of these modules applies `.view(shape)` to a tensor it was handed by the caller '
+                     '(use reshape): a transposed / permuted / expanded batch is as valid an input as a contiguous one, and view() raises on it', floor=20)
+    for m in modules:
+        for f in repo.module(m).functions.values():
+            if f.node.name in exempt:
+                continue
+            hz = view_of_param(f.node)
+            res.inst({'function': f.fq, 'view() of a parameter': [src(x)[:40] for x, _ in hz]}, f.fq)
+            for node, p in hz:
+                res.add(Finding(rid, f, '`%s`: `%s` has the memory layout the caller chose; for a batch whose dimensions cannot be merged without a copy (a transposed or '
+                                'permuted batch of rank >= 2) view() raises "view size is not compatible with input tensor\'s size and stride" where a result is promised'
+                                % (src(node)[:50], p), node=node, construct='view of parameter|' + norm_construct(node, f.node)))
+    fx = ast.parse('def f(e, k):\n    s, e2 = e.shape, e.view(-1, 3)\n    k = k.contiguous()\n    return e2, k.view(-1)\n').body[0]
+    if len(view_of_param(fx)) != 1:
+        raise AnalysisError('%s: fixture no longer classified' % rid)
+    return res
